@@ -217,6 +217,10 @@ def router_retain(ctx, F, prefix, method):
     b = F.impl_method("futures_sink::Sink", ROUTER, method)
     bodies, delegates = sweep_region(F, b)
     ctx.touch(*bodies)
+    # a sink sweep hands the caller's waker to the entries it polls and does nothing else with it: waking the task itself on Pending
+    # turns the wait for a slow peer into a busy loop of the whole topic
+    wk = [c for bd in bodies for c in bd.calls() if strip_generics(c.callee) in ("core::task::wake::Waker::wake_by_ref", "core::task::wake::Waker::wake")]
+    ctx.check(not wk, prefix + ".no-self-wake", "router:%s:self-wake" % method, "Router::%s never wakes its own task (a Pending entry has the waker; re-polling at once would spin)" % method, (wk or [b])[0].span)
     rt = [(bd, c) for bd in bodies for c in bd.calls() if c.name() == "retain"]
     cb = None
     if len(rt) == 1:
@@ -273,9 +277,14 @@ def router_retain(ctx, F, prefix, method):
                     retl.add(rv["op"]["pl"]["l"])
                     grew = True
         if rts:
-            for i2, j2, pl, rv, s2 in body_.assigns():
-                if rv["k"] == "agg" and rv.get("adt") == "core::task::poll::Poll" and rv.get("variant") == "Ready" and pl["l"] in retl and i2 in flow.reach_avoiding(body_, [0], [c.bb for c in rts]):
-                    early.append(s2["span"])
+            # a Ready answer given without sweeping: some path from the entry reaches a return without passing the retain call
+            # (a `Ready` built up front as the initial value of an outcome variable that the sweep may overwrite is not an early answer)
+            bypass = flow.reach_avoiding(body_, [0], [c.bb for c in rts])
+            returns_bypassing = [i2 for i2 in bypass if body_.blocks[i2]["term"]["k"] == "return"]
+            if returns_bypassing:
+                for i2, j2, pl, rv, s2 in body_.assigns():
+                    if rv["k"] == "agg" and rv.get("adt") == "core::task::poll::Poll" and rv.get("variant") == "Ready" and pl["l"] in retl and i2 in bypass:
+                        early.append(s2["span"])
     # an entry that answered Pending makes the whole sweep Pending: the Pending arm records it in a captured variable and the Ready
     # answer is given only when that variable was left untouched (Ready while an entry is busy lets start_send hit a full sink,
     # which is then evicted as "broken" and the frame is lost)
